@@ -329,7 +329,9 @@ class Parser(object):
             return (('star', None), None)
         if self.peek()[0] in ('id', 'w') and self.peek(1) == ('op', '.') and self.peek(2) == ('op', '*') \
                 and not (self.peek()[0] == 'w' and self.peek()[1] in _CLAUSE_WORDS):
-            name = self.peek()[1]
+            k, name = self.peek()
+            if k == 'w':
+                name = self.P.fold_bare(name)
             self.i += 3
             return (('star', name), None)
         e = self.expr()
@@ -387,7 +389,7 @@ class Parser(object):
             s['alias'] = self.ident()
         else:
             s['alias'] = s['table']
-            if s['table'] is None:
+            if s['table'] is None and self.P.derived_table_needs_alias:
                 self.fail('a subquery in FROM needs an alias')
         return s
 
@@ -712,6 +714,7 @@ class Personality(object):
     in_values_syntax = False
     trim_from_syntax = True
     empty_string_is_null = False
+    derived_table_needs_alias = False   # sqlite lang_select; PG 16 release notes ("allow subqueries in the FROM clause to omit aliases"); ORA SELECT
     # binding powers
     bp_or, bp_and, bp_not, bp_is, cmp_word_bp, bp_unary = 10, 20, 30, 40, 40, 80
     binop_bp = {'=': 40, '==': 40, '<>': 40, '!=': 40, '<': 42, '<=': 42, '>': 42, '>=': 42,
@@ -1306,6 +1309,7 @@ class MySQLPersonality(Personality):
     server_paramstyle = 'qmark'
     nulls_first = True            # MY 8.2.1.16 ORDER BY: "NULL values are presented first if you do ORDER BY ... ASC"
     default_like_escape = '\\'    # MY 12.8.1: "If you do not specify the ESCAPE character, \ is assumed"
+    derived_table_needs_alias = True    # MY 13.2.15.8 Derived Tables: "Every derived table must have its own alias"
     # MY 12.4.1 operator precedence: ... * / % > + - > comparison > BETWEEN > NOT > AND > OR, ||
     binop_bp = {'=': 40, '<>': 40, '!=': 40, '<': 40, '<=': 40, '>': 40, '>=': 40,
                 '+': 60, '-': 60, '*': 70, '/': 70, '%': 70, '||': 10}
